@@ -53,7 +53,7 @@ def run(tier, seed):
     fam = ce.pair_family()
     if tier == "quick":
         rng.shuffle(fam)
-        fam = fam[:260]
+        fam = [x for x in fam if "_eq" in x[0]][:60] + [x for x in fam if "_eq" not in x[0]][:260]
     else:
         fam += ce.triple_family(rng, 150)
     fam += ce.aba_family()
